@@ -131,7 +131,8 @@ def st_case(draw, max_ops=14):
                 op["pre"] = draw(st.sampled_from(PIPES + BAD_PIPES))
                 if draw(st.booleans()):
                     op["pre_opts"] = draw(st.sampled_from([{}, {"correct_tip_offset": {"method": "fit_constant_line"}},
-                                                           {"correct_tip_offset": {"method": "nope"}}]))
+                                                           {"correct_tip_offset": {"method": "nope"}},
+                                                           {"correct_tip_offset": {"metod": "fit_constant_line"}}]))
             ops.append(op)
         elif t == "edit":
             k = draw(st.sampled_from(EDIT_KEYS))
@@ -146,7 +147,11 @@ def st_case(draw, max_ops=14):
                                                        "correct_tip_offset": {"method": "frechet_direct_path"}}]))})
         elif t == "pre_bad":
             ops.append({"op": "pre", "steps": draw(st.sampled_from(BAD_PIPES + PIPES[1:3])),
-                        "opts": draw(st.sampled_from([{}, {"correct_tip_offset": {"method": "nope"}}]))})
+                        "opts": draw(st.sampled_from([{}, {"correct_tip_offset": {"method": "nope"}},
+                                                      # an option keyword the step does not have (TypeError)
+                                                      {"correct_tip_offset": {"metod": "fit_constant_line"}},
+                                                      {"correct_force_slope": {"region": "baseline", "strategy": "shift",
+                                                                               "extra": 1}}]))})
         elif t == "rate":
             ops.append({"op": "rate", "regressor": draw(st.sampled_from(["Decision Tree", "none"]))})
         elif t == "getparams_edit":
@@ -364,6 +369,7 @@ def check_case(case, ctx, ):
                     continue
                 op = last
             before_calls = len(rec.calls)
+            opts_before = copy.deepcopy(idnt.preprocessing_options)
             exc = do_op(idnt, op, curve)
             last = op
             if exc is not None or op["op"] in ("edit", "getparams_edit", "params_attr", "range_nudge", "dict_reorder"):
@@ -406,7 +412,12 @@ def check_case(case, ctx, ):
                               f"step {n}: requested {k}={want!r}, stored {got!r}")
             # ---- a failed call fails again when repeated unchanged
             if exc is not None and op["op"] in ("pre", "fit", "refit", "edit"):
-                exc2 = do_op(idnt, op, curve)
+                op2 = op
+                if op["op"] == "fit" and "pre" in op and "pre_opts" not in op:
+                    # the call left the options to the curve's memory, and a rejection clears that memory: the
+                    # unchanged *request* names the options it was resolved with
+                    op2 = dict(op, pre_opts=opts_before)
+                exc2 = do_op(idnt, op2, curve)
                 ctx.check(exc2 is not None, "failed-call-accepted-when-repeated", opdesc,
                           f"step {n} {op} raised {type(exc).__name__}: {str(exc)[:100]}; the unchanged repeat was accepted")
                 if rec.aborted:
